@@ -275,3 +275,86 @@ def preset_case(rng, preset, atnum):
     sectors = sorted(rng.choice(range(len(mids))) for _ in range(rng.randrange(2, 6)))
     sectors = sorted(set(sectors) | {rng.choice([0, len(mids) - 1])})
     return [mids[k] for k in sectors], [int(npt[k]) for k in sectors]
+
+
+# ------------------------------------------------------------------------------------------------
+# the same argument object used for several requests (source text: runs here via exec and is the replay snippet)
+# ------------------------------------------------------------------------------------------------
+SAMEOBJ = r"""
+import warnings
+import numpy as np
+
+
+def same_object(route, m, kind, cont, req, times, which=0, nat=2):
+    # Pass ONE object holding the request `req` (sizes or degrees) to `route` `times` times; every answer against the
+    # brute-force minimum over the table of the method computed from a pristine copy of the request, and the object
+    # itself unchanged afterwards. -> list of problems (empty: fine).
+    warnings.filterwarnings('ignore')
+    from grid import angular as ang
+    from grid.atomgrid import AtomGrid
+    from grid.basegrid import OneDGrid
+    from grid.molgrid import MolGrid
+    P = {'lebedev': 'LEBEDEV', 'spherical': 'SPHERICAL', 'maxdet': 'MAX_DET', 'ahrens_beylkin': 'AHRENS_BEYLKIN'}[m]
+    npts = getattr(ang, P + '_NPOINTS')
+    pristine = [int(x) for x in req]
+
+    def least(x):
+        c = [(int(d), int(s)) for s, d in npts.items() if (d if kind == 'deg' else s) >= x]
+        return min(c, key=lambda p: p[0] if kind == 'deg' else p[1]) if c else None
+    ref = [least(x) for x in pristine]
+    obj = {'int64': lambda q: np.array(q, dtype=np.int64), 'int32': lambda q: np.array(q, dtype=np.int32),
+           'intp': lambda q: np.array(q, dtype=int), 'list': list, 'tuple': tuple}[cont](pristine)
+
+    def rgrid(n):
+        return OneDGrid(np.array([0.4 * (j + 1) for j in range(n)]), np.ones(n), (0, np.inf))
+
+    def shells(g):
+        return [int(x) for x in g.degrees], [int(g.indices[i + 1] - g.indices[i]) for i in range(len(g.degrees))]
+    bound = [1e9, 1e-9][which]
+    problems = []
+    for t in range(times):
+        try:
+            if route == 'convert':
+                got = [int(x) for x in ang.AngularGrid.convert_angular_sizes_to_degrees(obj, m)]
+                want = None if None in ref else [r[0] for r in ref]
+            elif route == 'atomgrid':
+                g = AtomGrid(rgrid(len(pristine)), **{'degrees' if kind == 'deg' else 'sizes': obj}, method=m)
+                got = shells(g)
+                want = None if None in ref else ([r[0] for r in ref], [r[1] for r in ref])
+            elif route == 'pruned':
+                g = AtomGrid.from_pruned(rgrid(3), 1.0, r_sectors=[bound], **{'d_sectors' if kind == 'deg' else 's_sectors': obj}, method=m)
+                got = shells(g)
+                want = None if None in ref else ([ref[which][0]] * 3, [ref[which][1]] * 3)
+            elif route == 'molpruned':
+                coords = np.array([[0.0, 0.0, 1.4 * a] for a in range(nat)])
+                mg = MolGrid.from_pruned(np.array([1] * nat), coords, [1.0] * nat, [[bound]] * nat, rgrid=rgrid(2), store=True,
+                                         **{'d_sectors' if kind == 'deg' else 's_sectors': [obj] * nat})
+                got = [shells(g) for g in mg.atgrids]
+                want = None if None in ref else [([ref[which][0]] * 2, [ref[which][1]] * 2)] * nat
+            else:
+                raise SystemExit('unknown route ' + route)
+        except ValueError as e:
+            got = None if None in ref else 'ValueError: ' + str(e)[:80]
+            want = None
+        except Exception as e:
+            got, want = type(e).__name__ + ': ' + str(e)[:80], 'no exception'
+        if got != want:
+            problems.append('use %d of %d of the same %s object: got %r, the table gives %r for the request %r' % (t + 1, times, cont, got, want, pristine))
+            break
+    now = [int(x) for x in obj]
+    if now != pristine:
+        problems.append('the argument object itself now holds %r instead of %r' % (now, pristine))
+    return problems
+"""
+
+_SO = {}
+
+
+def same_object(*a, **k):
+    if not _SO:
+        exec(compile(SAMEOBJ, "<c12-same-object>", "exec"), _SO)
+    return _SO["same_object"](*a, **k)
+
+
+def same_object_snippet(args):
+    return SAMEOBJ + f"\nproblems = same_object(*{args!r})\nassert not problems, problems\n"
